@@ -25,7 +25,11 @@ k = json.load(open(f'{V}/known_findings.json'))
 t = json.load(open(f'{src}/known_findings.json'))
 ids = {f['id']: i for i, f in enumerate(k['findings'])}
 n = 0
+fixed_ids = {f['id'] for f in k.get('fixed', [])}
 for f in t.get('findings', []):
+    # only this property's entries, never one that is already repaired (scratch copies carry stale lists)
+    if pid not in f.get('properties', []) or f['id'] in fixed_ids:
+        continue
     if f['id'] in ids:
         k['findings'][ids[f['id']]] = f
     else:
